@@ -4,8 +4,9 @@
    (token-for-token comparison with the files the implementation writes, and [parse]/[check] run on those files).
    The model follows the repaired code (fix commits 2cde078, 34184b3, 07417cb); the statements are full strength. *)
 From Coq Require Import ZArith List.
-From OV.model Require Import M_C20.
-From OV.proofs Require Import L_C20 L_C20w.
+From OV.model Require Import M_C20 M_C20_Num M_C20_CFG.
+From OV.gen Require Import CFG_vtk.
+From OV.proofs Require Import L_C20 L_C20w L_C20n L_C20c.
 Import ListNotations.
 
 (* for EVERY writer state satisfying the invariant (established by init and kept by every operation, below) -- any element
@@ -89,9 +90,78 @@ Example C20_nonvacuous_all :
   /\ parse (fst (write w)) = Some (abstract w) /\ check (abstract w) = true.
 Proof. exact nonvacuous_all. Qed.
 
+(* ---------------------------------------------------------------- number formatting (model/M_C20_Num.v)
+   The words of the file.  Integers (every count, id, cell type and integer field value: '{}'.format of a Python int / numpy
+   integer = decimal literal) are modelled by [fmt_int] and read back exactly, for EVERY integer. *)
+Theorem C20_int_token_roundtrip : forall z, read_int (fmt_int z) = Some z.
+Proof. exact read_int_fmt_int. Qed.
+Theorem C20_int_number_word : forall z, read_num (fmt_int z) = Some (z, 1%positive).
+Proof. exact read_num_fmt_int. Qed.
+Theorem C20_int_words_distinct : forall a b, fmt_int a = fmt_int b -> a = b.
+Proof. exact fmt_int_inj. Qed.
+Theorem C20_count_word_roundtrip : forall n,
+  option_map (fun v => as_nat (TNum v)) (read_num (fmt_int (Z.of_nat n))) = Some (Some n).
+Proof. exact count_roundtrip. Qed.
+(* every word the writer's formats produce for a token ([renders]: the 24 keywords / field types / data types, decimal integer
+   literals, decimal literals whose correctly rounded double is the value, field names that are neither numeric nor keywords)
+   is mapped back to that token by the Coq lexer *)
+Theorem C20_word_roundtrip : forall names t s, renders names t s -> lex_word names s = t.
+Proof. exact lex_word_renders. Qed.
+(* text-level round trip: ANY file whose first two lines are the writer's and whose whitespace-separated words render the
+   model's tokens parses (Coq lexer + independent reader) to exactly the supplied dataset *)
+Theorem C20_text_roundtrip : forall names w ws, wf_writer w -> Forall2 (renders names) (body w) ws ->
+  parse_words names (magic_line :: title_line :: ws) = Some (abstract w).
+Proof. exact text_roundtrip. Qed.
+(* floats: the shortest-repr algorithm of CPython / numpy is not modelled; under the NAMED HYPOTHESIS [float_repr_contract]
+   (repr of a finite double is a non-integer-looking decimal literal whose correctly rounded double is the value) its output is a
+   rendering of the value token, so the two theorems above apply.  The contract is checked per token on every run: every
+   numeric word of every explored file is lexed by [lex_word] / [read_num] (Coq's own correctly rounded decimal -> binary64
+   conversion) and compared with the supplied value; float32 words with [read_num32]. *)
+Theorem C20_float_word_under_repr_contract : forall repr64 names x,
+  float_repr_contract repr64 -> is_b64 x -> renders names (TNum x) (repr64 x).
+Proof. exact contract_renders. Qed.
+(* NOT PROVED: (a) that CPython's float repr satisfies float_repr_contract (the algorithm is not modelled; per-token check only);
+   (b) that [round_bin] is the correctly rounded conversion in the sense of IEEE 754 (it is an executable definition, tied to
+   Python's float() / numpy.float32() per token by the streams `words` and `f32words`, not proved against a specification);
+   (c) the splitting of the text into lines / words (str.split in the harness) and the layout of rows on lines. *)
+Theorem C20_renders_decidable : forall names ts ws, renders_all names ts ws = true -> Forall2 (renders names) ts ws.
+Proof. exact renders_all_sound. Qed.
+(* non-vacuity: the actual words of the file written for a triangle with a double field (0.1, 1e-05, -2.5), an int cell field,
+   a sphere and a contact edge render the model's tokens (with non-integer float values among them) *)
+Example C20_text_nonvacuous : exists w0 w1 w2, init m1 = Some w0
+  /\ add_nodal_field w0 1 ex_u SCALARS DOUBLE = Some w1 /\ add_cell_field w1 2 [[q 7]] SCALARS INT = Some w2
+  /\ let w := add_contact_edges (add_sphere w2 (1, 2%positive)%Z (1, 4%positive)%Z (1, 8%positive)%Z) [(0, 1)] in
+     wf_writer w /\ Forall2 (renders ex_names) (body w) ex_words
+     /\ parse_words ex_names (magic_line :: title_line :: ex_words) = Some (abstract w)
+     /\ (exists x s, In (TNum x) (body w) /\ In s ex_words /\ read_int s = None /\ renders ex_names (TNum x) s /\ snd x <> 1%positive).
+Proof. exact text_nonvacuous. Qed.
+
+(* ---------------------------------------------------------------- structural tie to the source (model/M_C20_CFG.v, gen/CFG_vtk.v)
+   [cfg_vtk] / [consts_vtk] are regenerated from the AST of optimism/VTKWriter.py on every run (tools/vlib/extract_vtk.py, fail
+   closed): the order and presence of the section writers called by write(), the keyword words of every vtkFile.write, the loops
+   over spheres / contact edges / the field dict and the conditions guarding POINT_DATA / CELL_DATA.  They are compared BY
+   COMPUTATION with the structure table written next to the hand model. *)
+Theorem C20_source_structure_is_model_structure : cfg_vtk = model_cfg /\ consts_vtk = model_consts.
+Proof. exact source_structure. Qed.
+(* the extracted IR, interpreted on the shape of a state, yields the keyword tokens of the model's file: on concrete reachable
+   states here; for ALL states see C20_structure_trace (if present below) *)
+Theorem C20_structure_trace_examples :
+  (forall w0, init m1 = Some w0 -> trace_ok cfg_vtk consts_vtk w0 = true)
+  /\ (exists w0 w1 w2, init m3 = Some w0
+      /\ add_nodal_field w0 1 [[q 1; q 2; q 3; q 4]; [q 5; q 6; q 7; q 8]; [q 9; q 1; q 2; q 3]; [q 1; q 1; q 1; q 1];
+                           [q 2; q 2; q 2; q 2]; [q 3; q 3; q 3; q 3]; [q 4; q 4; q 4; q 4]; [q 5; q 5; q 5; q 5];
+                           [q 6; q 6; q 6; q 6]; [q 7; q 7; q 7; q 7]] TENSORS FLOAT = Some w1
+      /\ add_cell_field w1 2 [[q 1; q 2]] VECTORS INT = Some w2
+      /\ let w := add_contact_edges (add_sphere (add_sphere w2 (q 2) (q 2) (q 1)) (q 4) (q 4) (q 2)) [(0, 3); (4, 1)] in
+         trace_ok cfg_vtk consts_vtk w = true
+         /\ length (kw_trace cfg_vtk consts_vtk (shape_of w)) = 15).
+Proof. exact trace_examples. Qed.
+
 Print Assumptions C20_roundtrip_wellformed.
 Print Assumptions C20_repeated_writes_identical.
 Print Assumptions C20_add_nodal_field_wf.
 Print Assumptions C20_double_write_regression.
 Print Assumptions C20_sphere_radius_count_regression.
 Print Assumptions C20_cell_data_count_regression.
+Print Assumptions C20_text_roundtrip.
+Print Assumptions C20_int_number_word.
